@@ -13,8 +13,11 @@ ORDER_ROOTS = EVAL_ROOTS + [
     CORE + "values::SerializableValue::from_value", CORE + "values::SerializableValue::to_value", CORE + "values::SerializableValue::from_json",
     CORE + "values::SerializableValue::to_json", CORE + "values::Value::stringify", CORE + "expressions::validate_portable_value",
     CORE + "formatter::format_expr", CORE + "ast_to_source::expr_to_source", CORE + "ast_to_source::expr_to_source_with_scope",
-    "blots::evaluate_source", "blots::write_outputs", "blots::parse_json_inputs",
+    "blots::evaluate_source", "blots::write_outputs", "blots::parse_json_inputs", "blots::main",
+    "blots_wasm::evaluate", "blots_wasm::evaluate_inline_expressions", "blots_wasm::format_blots",
 ]
+# callees that iterate over an argument they are handed (the hash order becomes the order of what they build)
+ITER_CONSUMERS = ("extend", "from_iter", "append", "chain", "zip", "extend_from_slice", "from", "into")
 
 IMPURE_PREFIX = ("std::time::", "std::io::", "std::env::", "std::fs::", "std::process::", "std::thread::", "std::net::", "fastrand::",
                  "core::time::Duration::as_", "std::sys::", "std::os::", "rand::", "std::collections::hash::map::RandomState")
@@ -44,6 +47,7 @@ HASH_ITER = re.compile(r"std::collections::hash::(map::HashMap|set::HashSet)::<.
 REVIEWED_HASH_SINKS = {
     CORE + "values::SerializableValue::from_value": "captured scope collected into an IndexMap that is used only for by-name lookup by expr_to_source_with_scope and compared order-insensitively",
     CORE + "values::Value::stringify": "same: scope map used only for by-name inlining",
+    CORE + "stats::ProfilingSummary::print_summary": "--profile report on stderr: wall-clock timings sorted by total time, not part of any program result",
 }
 
 
@@ -112,79 +116,7 @@ def run(ctx):
 
     run_identity(ctx, cg, local, crates)
 
-    # ---------------- R2 heap cells are write-once
-    ctx.rule("C02.R2", "heap cells are never removed or overwritten: Heap's cell vector is private and only pushed; reify_mut has no callers; every caller of Heap::get_mut writes only LambdaDef.name, and only when it is None", floor=6)
-    heap_t = core.types.get(CORE + "heap::Heap")
-    if heap_t is None:
-        raise CheckerError("type Heap missing")
-    for fld in heap_t["variants"][0]["fields"]:
-        ctx.inst("C02.R2", "Heap.%s#private" % fld["name"], not fld["pub"], "field %s: %s, pub=%s" % (fld["name"], fld["ty"], fld["pub"]), H.loc(heap_t))
-    mutators = ("push", "get_mut", "len", "get", "iter", "is_empty", "last", "first", "as_slice", "capacity", "reserve", "with_capacity")
-    for name, hf in sorted(core.hir.items()):
-        if not name.startswith(CORE + "heap::Heap::"):
-            continue
-        if not hf.get("inputs") or not hf["inputs"][0].startswith("&mut blots_core::heap::Heap"):
-            continue
-        bad = []
-        for n in H.walk(hf["body"]):
-            if H.kind(n) == "MethodCall":
-                recv = H.strip(n["recv"])
-                if H.kind(recv) == "Field" and H.path_local(recv["e"]) == "self" and n["name"] not in mutators:
-                    bad.append(n["name"])
-            if H.kind(n) in ("Assign", "AssignOp"):
-                l = H.strip(n["l"])
-                if any(H.kind(x) == "Field" and H.path_local(x["e"]) == "self" for x in H.walk(l)):
-                    bad.append("assignment to self.*")
-        ctx.inst("C02.R2", "%s#push-only" % name.replace(CORE, ""), not bad, "operations on the cell vector other than push/get: %s" % bad, H.loc(hf["body"]))
-    rm = M.callers_of(crates, lambda d: d.endswith("::reify_mut"))
-    rm = {k: v for k, v in rm.items() if not k.endswith("::reify_mut")}
-    ctx.inst("C02.R2", "reify_mut#no-callers", not rm, "callers of reify_mut: %s" % sorted(rm), None)
-    gm = M.callers_of(crates, lambda d: d == CORE + "heap::Heap::get_mut")
-    if not gm:
-        ctx.inst("C02.R2", "get_mut#callers", True, "Heap::get_mut has no callers", None)
-    for name, bbs in sorted(gm.items()):
-        fn = M.Fn(cg.fns[name], name)
-        for idx, b in enumerate(bbs):
-            dest = fn.term(b)["dest"]["l"]
-            writes = []
-            for wi, wb in enumerate(fn.blocks):
-                if wb.get("cleanup"):
-                    continue  # drop-and-replace repeats the store on the unwind path
-                for s in wb["s"]:
-                    if s["k"] != "assign" or "*" not in s["lhs"]["p"]:
-                        continue
-                    roots = fn.trace(s["lhs"])
-                    if any(r[0] == "call" and r[1] == CORE + "heap::Heap::get_mut" and r[2] == b for r in roots):
-                        fields = [p for r in roots for p in r[3] if not p.startswith("@") and not p.isdigit()]
-                        writes.append((wi, fields[-1] if fields else "?"))
-                t = wb["t"]
-                if t["k"] == "drop" and "*" in t["place"]["p"]:
-                    pass
-            wfields = sorted({w[1] for w in writes})
-            guarded = True
-            for wi, fld in writes:
-                g = False
-                for cb in fn.calls_matching(lambda d: d.endswith("Option::<T>::is_none")):
-                    aroots = fn.trace(fn.term(cb)["args"][0])
-                    if not any(r[0] == "call" and r[1] == CORE + "heap::Heap::get_mut" and r[2] == b and "name" in r[3] for r in aroots):
-                        continue
-                    e = None
-                    t = fn.term(cb)
-                    sw = fn.switch_on_local(t["dest"]["l"], t["t"])
-                    if sw is None:
-                        continue
-                    st = sw[1]
-                    zero = [x[1] for x in st["targets"] if x[0] == "0"]
-                    if zero and fn.dominates(cb, wi) and wi in fn.reachable(st["otherwise"]) and wi not in fn.reachable(zero[0]):
-                        g = True
-                guarded = guarded and g
-            if not writes and name.endswith("::reify_mut"):
-                # forwarding accessor: hands the &mut on; decided by "reify_mut has no callers" above
-                ctx.inst("C02.R2", "%s#get_mut[%d]" % (name.replace(CORE, ""), idx), not rm, "forwards the &mut to its caller; reify_mut has no callers: %s" % (not rm), fn.loc(b))
-                continue
-            ok = set(wfields) <= {"name"} and guarded and bool(writes)
-            ctx.inst("C02.R2", "%s#get_mut[%d]" % (name.replace(CORE, ""), idx), ok,
-                     "writes through the returned &mut: fields %s; each dominated by name.is_none(): %s" % (wfields, guarded), fn.loc(b))
+    heap_write_once(ctx, "C02.R2", core, crates, cg)
 
     # ---------------- R3 hash-order sinks
     ctx.rule("C02.R3", "every iteration over a std HashMap/HashSet in code reachable from evaluation, serialisation, formatting and the CLI output path ends in an order-insensitive sink (hash container, any/all/contains, count), or is a reviewed exception", floor=3)
@@ -226,10 +158,24 @@ def run(ctx):
                 it = H.strip(node["iter"])
                 if is_hash_ty(it.get("ty", "")) :
                     src = "for-loop over " + it.get("ty", "")[:40]
+            handed = None
+            if src is None and H.kind(node) in ("MethodCall", "Call"):
+                # a hash container handed (by value or reference) to a callee that iterates over it: x.extend(hash_map)
+                cname = node.get("name") or H.last(node.get("def") or "")
+                if cname in ITER_CONSUMERS and any(is_hash_ty(H.strip(a).get("ty", "")) for a in node.get("args", [])):
+                    if H.kind(node) == "MethodCall" and node["name"] in ("from", "into"):
+                        pass
+                    else:
+                        handed = cname
+                        src = "hash container handed to %s()" % cname
             if src is None:
                 continue
             n_sites += 1
-            sink, ok = classify_sink(hf["body"], node)
+            if handed is not None:
+                rt = node.get("recv_ty", "") if H.kind(node) == "MethodCall" else node.get("ty", "")
+                sink, ok = ("%s() on %s" % (handed, rt[:60]), is_hash_ty(rt))
+            else:
+                sink, ok = classify_sink(hf["body"], node)
             if not ok and n in REVIEWED_HASH_SINKS:
                 ctx.inst("C02.R3", "%s<-%s#%d" % (n.replace(CORE, ""), node.get("name", "for"), n_sites), True, "order-sensitive sink (%s), reviewed exception: %s" % (sink, REVIEWED_HASH_SINKS[n]), H.loc(node))
             else:
@@ -370,3 +316,80 @@ def classify_sink(body, node):
     if H.kind(p) == "For" and p.get("iter") is cur:
         return classify_sink(body, p)
     return ("unrecognised consumer (%s)" % (names or H.kind(p)), False)
+
+
+def heap_write_once(ctx, rid, core, crates, cg, doc=None):
+    """heap cells are write-once (shared with C03 / C04, where a renamed lambda changes what a bound name does)"""
+    # ---------------- R2 heap cells are write-once
+    ctx.rule(rid, doc or "heap cells are never removed or overwritten: Heap's cell vector is private and only pushed; reify_mut has no callers; every caller of Heap::get_mut writes only LambdaDef.name, and only when it is None", floor=6)
+    heap_t = core.types.get(CORE + "heap::Heap")
+    if heap_t is None:
+        raise CheckerError("type Heap missing")
+    for fld in heap_t["variants"][0]["fields"]:
+        ctx.inst(rid, "Heap.%s#private" % fld["name"], not fld["pub"], "field %s: %s, pub=%s" % (fld["name"], fld["ty"], fld["pub"]), H.loc(heap_t))
+    mutators = ("push", "get_mut", "len", "get", "iter", "is_empty", "last", "first", "as_slice", "capacity", "reserve", "with_capacity")
+    for name, hf in sorted(core.hir.items()):
+        if not name.startswith(CORE + "heap::Heap::"):
+            continue
+        if not hf.get("inputs") or not hf["inputs"][0].startswith("&mut blots_core::heap::Heap"):
+            continue
+        bad = []
+        for n in H.walk(hf["body"]):
+            if H.kind(n) == "MethodCall":
+                recv = H.strip(n["recv"])
+                if H.kind(recv) == "Field" and H.path_local(recv["e"]) == "self" and n["name"] not in mutators:
+                    bad.append(n["name"])
+            if H.kind(n) in ("Assign", "AssignOp"):
+                l = H.strip(n["l"])
+                if any(H.kind(x) == "Field" and H.path_local(x["e"]) == "self" for x in H.walk(l)):
+                    bad.append("assignment to self.*")
+        ctx.inst(rid, "%s#push-only" % name.replace(CORE, ""), not bad, "operations on the cell vector other than push/get: %s" % bad, H.loc(hf["body"]))
+    rm = M.callers_of(crates, lambda d: d.endswith("::reify_mut"))
+    rm = {k: v for k, v in rm.items() if not k.endswith("::reify_mut")}
+    ctx.inst(rid, "reify_mut#no-callers", not rm, "callers of reify_mut: %s" % sorted(rm), None)
+    gm = M.callers_of(crates, lambda d: d == CORE + "heap::Heap::get_mut")
+    if not gm:
+        ctx.inst(rid, "get_mut#callers", True, "Heap::get_mut has no callers", None)
+    for name, bbs in sorted(gm.items()):
+        fn = M.Fn(cg.fns[name], name)
+        for idx, b in enumerate(bbs):
+            dest = fn.term(b)["dest"]["l"]
+            writes = []
+            for wi, wb in enumerate(fn.blocks):
+                if wb.get("cleanup"):
+                    continue  # drop-and-replace repeats the store on the unwind path
+                for s in wb["s"]:
+                    if s["k"] != "assign" or "*" not in s["lhs"]["p"]:
+                        continue
+                    roots = fn.trace(s["lhs"])
+                    if any(r[0] == "call" and r[1] == CORE + "heap::Heap::get_mut" and r[2] == b for r in roots):
+                        fields = [p for r in roots for p in r[3] if not p.startswith("@") and not p.isdigit()]
+                        writes.append((wi, fields[-1] if fields else "?"))
+                t = wb["t"]
+                if t["k"] == "drop" and "*" in t["place"]["p"]:
+                    pass
+            wfields = sorted({w[1] for w in writes})
+            guarded = True
+            for wi, fld in writes:
+                g = False
+                for cb in fn.calls_matching(lambda d: d.endswith("Option::<T>::is_none")):
+                    aroots = fn.trace(fn.term(cb)["args"][0])
+                    if not any(r[0] == "call" and r[1] == CORE + "heap::Heap::get_mut" and r[2] == b and "name" in r[3] for r in aroots):
+                        continue
+                    e = None
+                    t = fn.term(cb)
+                    sw = fn.switch_on_local(t["dest"]["l"], t["t"])
+                    if sw is None:
+                        continue
+                    st = sw[1]
+                    zero = [x[1] for x in st["targets"] if x[0] == "0"]
+                    if zero and fn.dominates(cb, wi) and wi in fn.reachable(st["otherwise"]) and wi not in fn.reachable(zero[0]):
+                        g = True
+                guarded = guarded and g
+            if not writes and name.endswith("::reify_mut"):
+                # forwarding accessor: hands the &mut on; decided by "reify_mut has no callers" above
+                ctx.inst(rid, "%s#get_mut[%d]" % (name.replace(CORE, ""), idx), not rm, "forwards the &mut to its caller; reify_mut has no callers: %s" % (not rm), fn.loc(b))
+                continue
+            ok = set(wfields) <= {"name"} and guarded and bool(writes)
+            ctx.inst(rid, "%s#get_mut[%d]" % (name.replace(CORE, ""), idx), ok,
+                     "writes through the returned &mut: fields %s; each dominated by name.is_none(): %s" % (wfields, guarded), fn.loc(b))
